@@ -1,6 +1,7 @@
 import RV.C07.Lemmas
 import RV.C07.LemmasRead
 import RV.C07.LemmasWs
+import RV.C07.LemmasReadTerm
 /-
   C07 — property statements (each first as `def Statement_… : Prop` at full strength), theorems,
   non-vacuity examples.  "RDF terms obey identity laws: equality, hashing, ordering, pickling, n3 text."
@@ -492,6 +493,90 @@ theorem n3_roundtrip_nsm : Statement_n3_roundtrip_nsm := by
         rw [htxt, fromN3_quoteEncode E nz x _ hs, litFromParts_qdt E hE nz tbl hn x p q ns hp hlk hhat, hu]
         simp [mkLit, Rd.ofExcept, hst, Term.plain]
 
+/-! ### the text of one term inside a Turtle / SPARQL statement -/
+
+/-- what the grammars ask beyond what `n3()` checks: no C0 control in an IRI (IRIREF), a blank node label of the
+    BLANK_NODE_LABEL production; variables are not terms of these grammars' data part -/
+def GrammarOK : Term → Prop
+  | .node .bnode s => LabelOK s
+  | .node .var _ => False
+  | .node _ s => ∀ c ∈ s, c.toNat > 0x20
+  | .lit _ d _ => ∀ u, d = some u → ∀ c ∈ u, c.toNat > 0x20
+
+/-- ⊢ `turtle_term_roundtrip` / `sparql_term_roundtrip` at the term level: the grammar-level reader (IRIREF,
+    BLANK_NODE_LABEL, the quoted string forms with ECHAR/UCHAR, LANGTAG, `^^` datatype) applied to the text `n3()` wrote
+    for a term, followed by anything a statement may continue with, reads exactly that term and consumes nothing of
+    what follows -/
+def Statement_term_text_roundtrip : Prop :=
+  ∀ (E : Ext) (nz : Bool) (t : Term) (txt suffix : Str), WFText E t → TextStable E nz t → GrammarOK t →
+    delimSafe suffix = true → n3 E t = some txt → readTerm E nz (txt ++ suffix) = some (t.plain, suffix)
+
+theorem term_text_roundtrip : Statement_term_text_roundtrip := by
+  intro E nz t txt suffix hw hst hg hs h
+  have iriCase : ∀ s : Str, isValidUri s = true → (∀ c ∈ s, c.toNat > 0x20) →
+      readTerm E nz (('<' :: s ++ ['>']) ++ suffix) = some (.node .uri s, suffix) := by
+    intro s hv hc
+    have hi := scanIri_plain s suffix (iriCharOk_of_valid hv hc) ((s ++ '>' :: suffix).length + 1) (by simp; omega)
+    have e : ('<' :: s ++ ['>']) ++ suffix = '<' :: (s ++ '>' :: suffix) := by simp
+    rw [e]
+    simp only [readTerm, hi]
+    rfl
+  cases t with
+  | node c s =>
+    cases c with
+    | bnode =>
+      simp only [n3, Option.some.injEq] at h; subst h
+      exact readBNode_label E nz s suffix hg hs
+    | var => exact absurd hg (by simp [GrammarOK])
+    | uri =>
+      simp only [n3] at h
+      split at h
+      · next hv => simp only [Option.some.injEq] at h; subst h; exact iriCase s hv hg
+      · cases h
+    | genid =>
+      simp only [n3] at h
+      split at h
+      · next hv => simp only [Option.some.injEq] at h; subst h; exact iriCase s hv hg
+      · cases h
+    | rgenid =>
+      simp only [n3] at h
+      split at h
+      · next hv => simp only [Option.some.injEq] at h; subst h; exact iriCase s hv hg
+      · cases h
+  | lit x d l =>
+    obtain ⟨hxor, htag, hdt, hinf⟩ := hw
+    simp only [TextStable] at hst
+    simp only [n3, Option.some.injEq] at h
+    subst h
+    simp only [Term.plain]
+    have hsufq : suffix.head? ≠ some '"' := fun e => (delim_facts (delimSafe_head hs _ e)).1 rfl
+    cases l with
+    | some tag =>
+      have hv := htag tag rfl
+      have hd : d = none := by
+        rcases hxor with h' | h'
+        · cases h'
+        · exact h'
+      subst hd
+      cases tag with
+      | nil => simp [validLangTag] at hv
+      | cons c r =>
+        rw [litN3_lang, List.append_assoc, readTerm_quoted E nz x _ (by simp)]
+        exact readLitSuffix_lang E nz x (c :: r) suffix hs hv hst
+    | none =>
+      cases d with
+      | none =>
+        rw [litN3_plain, readTerm_quoted E nz x _ hsufq]
+        exact readLitSuffix_plain E nz x suffix hs hst
+      | some u =>
+        obtain ⟨hne, hvu⟩ := hdt u rfl
+        cases u with
+        | nil => exact absurd rfl hne
+        | cons c r =>
+          rw [litN3_dt E x c r (hinf _ rfl), List.append_assoc, readTerm_quoted E nz x _ (by simp)]
+          have := readLitSuffix_dt E nz x (c :: r) suffix (iriCharOk_of_valid hvu (hg _ rfl)) hst
+          simpa using this
+
 /-- `URIRef.n3` refuses exactly the IRIs with a character of `_invalid_uri_chars` -/
 def Statement_n3_guard : Prop :=
   ∀ (E : Ext) (c : NCls) (s : Str), c.kind = .iri →
@@ -636,6 +721,11 @@ example : WFText drvExt exLit := by
 example : TextStable drvExt false exLit := by simp [TextStable, exLit, newLex, wsNorm]
 example : n3 drvExt exLit = some "\"\"\"a\"\\\\\n\\\"\"\"\"@en".toList := by decide
 example : fromN3 drvExt false "\"\"\"a\"\\\\\n\\\"\"\"\"@en".toList = .term exLit := by decide
+example : readTerm drvExt false ("\"\"\"a\"\\\\\n\\\"\"\"\"@en".toList ++ " ; <urn:q> 1 .".toList) =
+    some (exLit, " ; <urn:q> 1 .".toList) := by decide
+example : delimSafe " ; <urn:q> 1 .".toList = true ∧ delimSafe ".".toList = true ∧ delimSafe ".x".toList = false := by decide
+example : GrammarOK (.node .bnode ['b', '.', '1']) :=
+  ⟨'b', ['.', '1'], rfl, by decide, by decide, by decide⟩
 def exTbl : List (Str × Str) := [(['e', 'x'], "http://e/".toList), (['x'], "urn:x:".toList)]
 example : fromN3 { drvExt with nsm := some exTbl } false "\"1\"^^ex:dt".toList =
     .term (.lit ['1'] (some "http://e/dt".toList) none) := by decide
